@@ -32,6 +32,12 @@ def known_match(known, prop, key):
     return None
 
 
+def _short(m, n=12):
+    if not isinstance(m, dict):
+        return m
+    return {k: m[k] for k in list(m)[:n]}
+
+
 def _slug(s):
     return re.sub(r"[^A-Za-z0-9_.=-]+", "_", s)[:150]
 
@@ -182,14 +188,28 @@ def run_property(prop, tier, *, jobs=None, only=None, verbose=False,
     violations = []
     known_hits = []
     lines = []
-    for key, lst in sorted(refuted_keys.items()):
-        r, o = next((r, o) for r, o in lst if o["status"] == "refuted")
-        kf = known_match(known, prop, key)
-        if kf is not None:
-            known_hits.append(dict(key=key, what=kf["what"]))
-            lines.append(f"KNOWN-FINDING: property={prop} {kf['what']} "
-                         f"[{key}]")
+    # group refuted obligations by (contract, clause): one line per group
+    groups: dict[str, list] = {}
+    for key in sorted(refuted_keys):
+        gk = "|".join(key.split("|")[:2])
+        groups.setdefault(gk, []).append(key)
+    for gk, keys in groups.items():
+        unknown_keys_ = []
+        kfs = {}
+        for key in keys:
+            kf = known_match(known, prop, key)
+            if kf is None:
+                unknown_keys_.append(key)
+            else:
+                kfs[kf["what"]] = key
+                known_hits.append(dict(key=key, what=kf["what"]))
+        for what, key in kfs.items():
+            lines.append(f"KNOWN-FINDING: property={prop} {what} [{key}]")
+        if not unknown_keys_:
             continue
+        key = unknown_keys_[0]
+        r, o = next((r, o) for r, o in refuted_keys[key]
+                    if o["status"] == "refuted")
         c = core.REGISTRY[r["contract"]]
         path, has_body = write_replay(prop, key, c, r["inst"], o["clause"], o)
         reproduced = False
@@ -200,15 +220,17 @@ def run_property(prop, tier, *, jobs=None, only=None, verbose=False,
             with open(path, "a") as f:
                 f.write(f"\n# replay exit status when written: {rc}\n")
                 f.write("# " + out.replace("\n", "\n# ")[:2500] + "\n")
-        violations.append(dict(key=key, replay=path, reproduced=reproduced,
-                               model=o["model"], info=o["info"]))
+        for k2 in unknown_keys_:
+            violations.append(dict(key=k2, replay=path, reproduced=reproduced,
+                                   model=o["model"] if k2 == key else None,
+                                   info=o["info"] if k2 == key else None))
         suffix = "" if reproduced else " no-failing-input-found"
         lines.append(f"VIOLATION property={prop} replay={path}{suffix}")
-        if verbose or True:
-            lines.append(f"  obligation {key} refuted by {o['backend']}; "
-                         f"model={o['model']} info={o['info']}")
-            if out:
-                lines.append("  replay: " + out.strip().splitlines()[0][:300])
+        lines.append(f"  obligation {key} refuted by {o['backend']} "
+                     f"(+{len(unknown_keys_) - 1} more instance(s) of this "
+                     f"clause); model={_short(o['model'])} info={o['info']}")
+        if out:
+            lines.append("  replay: " + out.strip().splitlines()[0][:300])
 
     # extras
     extra_summ = []
